@@ -25,7 +25,7 @@ template <class T> static bool corrupt_matrix(SuperMatrix *M, int kind, int n)
     case MB_STYPE: M->Stype = (M->Stype == SLU_NCP ? SLU_DN : SLU_NCP); return true;
     case MB_DTYPE: M->Dtype = (M->Dtype == SLU_D ? SLU_S : (M->Dtype == SLU_S ? SLU_D : (M->Dtype == SLU_Z ? SLU_C : SLU_Z))); return true;
     case MB_MTYPE: M->Mtype = (M->Mtype == SLU_SYL ? SLU_HEL : SLU_SYL); return true;
-    case MB_LDA: if (M->Stype != SLU_DN || n < 1 || M->ncol < 1) return false; ((DNformat *)M->Store)->lda = n - 1; return true;
+    case MB_LDA: if (M->Stype != SLU_DN || n < 1) return false; ((DNformat *)M->Store)->lda = n - 1; return true;   // also with no columns: ?gssv, ?gstrs and ?gsrfs test the leading dimension whatever ncol is
     case MB_NEGCOL: if (M->Stype != SLU_DN) return false; M->ncol = -1; return true;
     }
     return false;
